@@ -19,6 +19,11 @@ partial def tyOfMich : Mich → Option Ty
   | .prim "bytes" [] _ => some .bytes
   | .prim "address" [] _ => some .address
   | .prim "chain_id" [] _ => some .chainId
+  | .prim "never" [] _ => some .never
+  | .prim "key_hash" [] _ => some .keyHash
+  | .prim "key" [] _ => some .key
+  | .prim "operation" [] _ => some .operation
+  | .prim "contract" [a] _ => (tyOfMich a).map .contract
   | .prim "option" [a] _ => (tyOfMich a).map .option
   | .prim "list" [a] _ => (tyOfMich a).map .list
   | .prim "or" [a, b] _ => do pure (.or (← tyOfMich a) (← tyOfMich b))
@@ -40,6 +45,11 @@ partial def tyToMich : Ty → Mich
   | .bytes => .prim "bytes" [] []
   | .address => .prim "address" [] []
   | .chainId => .prim "chain_id" [] []
+  | .never => .prim "never" [] []
+  | .keyHash => .prim "key_hash" [] []
+  | .key => .prim "key" [] []
+  | .operation => .prim "operation" [] []
+  | .contract a => .prim "contract" [tyToMich a] []
   | .option a => .prim "option" [tyToMich a] []
   | .list a => .prim "list" [tyToMich a] []
   | .or a b => .prim "or" [tyToMich a, tyToMich b] []
@@ -47,6 +57,11 @@ partial def tyToMich : Ty → Mich
   | .lambda a b => .prim "lambda" [tyToMich a, tyToMich b] []
   | .map a b => .prim "map" [tyToMich a, tyToMich b] []
   | .set a => .prim "set" [tyToMich a] []
+
+/-- the entrypoint / tag a field annotation names (`%name`; none: `dflt`) -/
+def annotName (dflt : String) : List String → List Nat
+  | a :: _ => if a.startsWith "%" then codes (a.drop 1).toString else codes dflt
+  | [] => codes dflt
 
 def natArg : Mich → Option Nat
   | .int v => if v ≥ 0 then some v.toNat else none
@@ -65,6 +80,8 @@ mutual
     | .bytes, .bytes b => some (.bytes b)
     | .address, .str s => some (.atom .address (codes s))
     | .chainId, .str s => some (.atom .chainId (codes s))
+    | .keyHash, .str s => some (.atom .keyHash (codes s))
+    | .key, .str s => some (.atom .key (codes s))
     | .option _, .prim "None" [] _ => none   -- needs the type: handled below
     | .option t, .prim "Some" [x] _ => (valOfMich t x).map .some
     | .or l r, .prim "Left" [x] _ => (valOfMich l x).map fun v => .left v r
@@ -181,6 +198,20 @@ mutual
     | .prim "SHA3" [] _ => some .SHA3
     | .prim "CAST" [t] _ => (tyOfMich t).map .CAST
     | .prim "RENAME" [] _ => some .RENAME
+    | .prim "NEVER" [] _ => some .NEVER
+    | .prim "NAT" [] _ => some .NAT
+    | .prim "BYTES" [] _ => some .BYTES
+    | .prim "VOTING_POWER" [] _ => some .VOTING_POWER
+    | .prim "HASH_KEY" [] _ => some .HASH_KEY
+    | .prim "ADDRESS" [] _ => some .ADDRESS
+    | .prim "IMPLICIT_ACCOUNT" [] _ => some .IMPLICIT_ACCOUNT
+    | .prim "CONTRACT" [t] an => (tyOfMich t).map fun t => .CONTRACT t (annotName "default" an)
+    -- `SELF %ep` arrives elaborated: the harness writes the type of that entrypoint of the parameter as an argument
+    | .prim "SELF" [t] an => (tyOfMich t).map fun t => .SELF (annotName "default" an) t
+    | .prim "PACK" [] _ => some .PACK
+    | .prim "TRANSFER_TOKENS" [] _ => some .TRANSFER_TOKENS
+    | .prim "SET_DELEGATE" [] _ => some .SET_DELEGATE
+    | .prim "EMIT" [t] an => (tyOfMich t).map fun t => .EMIT (annotName "" an) t
     | _ => none
 end
 
@@ -204,6 +235,13 @@ mutual
         | .pair k v => .prim "Elt" [valToMich k, valToMich v] []
         | o => valToMich o)
     | .lam _ _ body => instrToMich body
+    | .contract _ s => .str (uncodes s)
+    -- operations: what `OperationType.content` records
+    | .opTransfer src dest ep amount p pty =>
+      .prim "TRANSFER" [.str (uncodes src), .str (uncodes dest), .str (uncodes ep), .int amount, tyToMich pty, valToMich p] []
+    | .opDelegate src none => .prim "DELEGATE" [.str (uncodes src), .prim "None" [] []] []
+    | .opDelegate src (some d) => .prim "DELEGATE" [.str (uncodes src), .prim "Some" [.str (uncodes d)] []] []
+    | .opEmit src tag t p => .prim "EVENT" [.str (uncodes src), .str (uncodes tag), tyToMich t, valToMich p] []
   partial def instrToMich : Instr → Mich
     | .seq xs => .seq (xs.map instrToMich)
     | .DROP => .prim "DROP" [] [] | .DROPN n => .prim "DROP" [.int n] []
@@ -245,6 +283,14 @@ mutual
     | .BLAKE2B => .prim "BLAKE2B" [] [] | .SHA256 => .prim "SHA256" [] [] | .SHA512 => .prim "SHA512" [] []
     | .KECCAK => .prim "KECCAK" [] [] | .SHA3 => .prim "SHA3" [] []
     | .CAST t => .prim "CAST" [tyToMich t] [] | .RENAME => .prim "RENAME" [] []
+    | .NEVER => .prim "NEVER" [] [] | .NAT => .prim "NAT" [] [] | .BYTES => .prim "BYTES" [] []
+    | .VOTING_POWER => .prim "VOTING_POWER" [] [] | .HASH_KEY => .prim "HASH_KEY" [] []
+    | .ADDRESS => .prim "ADDRESS" [] [] | .IMPLICIT_ACCOUNT => .prim "IMPLICIT_ACCOUNT" [] []
+    | .CONTRACT t ep => .prim "CONTRACT" [tyToMich t] ["%" ++ uncodes ep]
+    | .SELF ep t => .prim "SELF" [tyToMich t] ["%" ++ uncodes ep]
+    | .PACK => .prim "PACK" [] []
+    | .TRANSFER_TOKENS => .prim "TRANSFER_TOKENS" [] [] | .SET_DELEGATE => .prim "SET_DELEGATE" [] []
+    | .EMIT tag t => .prim "EMIT" [tyToMich t] (if tag.isEmpty then [] else ["%" ++ uncodes tag])
 end
 
 end Driver
